@@ -18,7 +18,11 @@ def sortStrs (l : List String) : List String := l.foldr (insertBy (fun a b => de
 def showSet (ks : List Key) : String :=
   "{" ++ ",".intercalate (sortStrs ((ks.map (fun k => k.1 ++ "/" ++ k.2)).eraseDups)) ++ "}"
 
-def outs (d : DS) : List Outcome := d.modes.map (fun ok => if ok then .ok else .fail)
+/-- one outcome per configured peer, in the order of the peer list (a peer's address is its index at `reset`) -/
+def outs (d : DS) : List Outcome := d.s.peers.map (fun p => if d.modes.getD p.addr false then .ok else .fail)
+
+/-- the real nsqlookupd is the peer with the highest address -/
+def realPeer (d : DS) : Option Peer := d.s.peers.find? (fun p => p.addr + 1 == d.npeers)
 
 def stepD (d : DS) (st : Step) : DS :=
   match step d.s st with
@@ -34,13 +38,13 @@ def drainBag : Nat → DS → DS
     match d.s.bag.getLast? with
     | none => d
     | some r =>
-      let realUp := match d.s.peers.getLast? with
-        | some p => (p.conn == .up || p.conn == .down) && d.modes.getLast?.getD false && p.conn != .stale
+      let realUp := match realPeer d with
+        | some p => d.modes.getLast?.getD false && p.conn != .stale
         | none => false
       let dead := d.s.dead.contains r
       let d1 := stepD d (.notify r (outs d))
       -- the real lookupd keeps channel keys after UNREGISTER (unless ephemeral); a reconnect re-registers everything
-      let reg := (d1.s.peers.getLast?.map (·.regs)).getD []
+      let reg := ((realPeer d1).map (·.regs)).getD []
       let known := (d1.rKnown ++ reg.filter (fun k => k.2 != "")).eraseDups
       let known := if dead && realUp && isEph r.chan then known.filter (· != r.key) else known
       drainBag fuel { d1 with rKnown := known }
@@ -59,7 +63,7 @@ def createTopic (d : DS) (t : String) : DS :=
 
 def ticks (d : DS) : DS :=
   let d1 := stepD (stepD (stepD d (.tick (outs d))) (.tick (outs d))) (.tick (outs d))
-  let reg := (d1.s.peers.getLast?.map (·.regs)).getD []
+  let reg := ((realPeer d1).map (·.regs)).getD []
   { d1 with rKnown := (d1.rKnown ++ reg.filter (fun k => k.2 != "")).eraseDups }
 
 def probe (d : DS) : DS :=
@@ -69,8 +73,10 @@ def peerName (d : DS) (i : Nat) : String := if i + 1 == d.npeers then "R" else s
 
 def viewLine (d : DS) : String :=
   let want := showSet (d.s.objs.map Ref.key)
-  let vs := (List.range d.s.peers.length).zip d.s.peers |>.map (fun (i, p) =>
-    peerName d i ++ "=" ++ (if p.conn == .up then showSet p.regs else "down"))
+  let vs := (List.range d.npeers).map (fun i =>
+    peerName d i ++ "=" ++ (match d.s.peers.find? (fun p => p.addr == i) with
+      | some p => if p.conn == .up then showSet p.regs else "down"
+      | none => "down"))
   "want=" ++ want ++ " " ++ " ".intercalate vs
 
 def setMode (d : DS) (i : Nat) (ok : Bool) : DS :=
@@ -108,6 +114,10 @@ def stepLine (d : DS) (line : String) : DS × String :=
     let d2 := if n == "R" then { d1 with rKnown := [] } else d1
     (probe d2, "ok")
   | "hook" :: _ => (d, "ok")
+  | ["removepeer", n] => (stepD d (.removePeer (peerIdx d n)), "ok")
+  | ["addpeer", n] =>
+    let i := peerIdx d n
+    (stepD d (.addPeer i (if d.modes.getD i false then .ok else .fail)), "ok")
   | ["drop", n] => (stepD d (.lookupdDrop (peerIdx d n)), "ok")
   | ["settle"] => let d1 := ticks d; (d1, viewLine d1)
   | ["read", limit, hex] =>
